@@ -260,7 +260,9 @@ pub fn scan(text: &str) -> Scan {
             },
             Event::Text(t) => {
                 if in_meta {
-                    metadata = Some(t.to_string());
+                    let mut m = metadata.take().unwrap_or_default();
+                    m.push_str(&t);
+                    metadata = Some(m);
                     continue;
                 }
                 match stack.last_mut() {
